@@ -190,8 +190,10 @@ def main(argv):
         'coverage': cov, 'assumptions': mod.ASSUMPTIONS,
         'wall_s': round(wall, 2), 'violations': len(new),
     }
-    os.makedirs(os.path.join(HOME, 'evidence'), exist_ok=True)
-    with open(os.path.join(HOME, 'evidence', cid + '.json'), 'w') as f:
+    evdir = os.environ.get('VERIF_EVIDENCE_DIR') or os.path.join(HOME,
+                                                                  'evidence')
+    os.makedirs(evdir, exist_ok=True)
+    with open(os.path.join(evdir, cid + '.json'), 'w') as f:
         json.dump(ev, f, indent=1, sort_keys=True, default=str)
     print('%s %s seed=%d: %d evaluations, %d distinct non-trivial, '
           '%d shards, %.1fs' % (cid, tier, seed, m['evaluations'], nontrivial,
@@ -203,7 +205,8 @@ def main(argv):
             cid, known[(cid, key)], key, v['msg'][:200]))
     rc = 0
     if new:
-        rdir = os.path.join(HOME, 'out', 'replay')
+        rdir = os.path.join(os.environ.get('VERIF_EVIDENCE_DIR') or
+                            os.path.join(HOME, 'out'), 'replay')
         os.makedirs(rdir, exist_ok=True)
         shown = {}
         for v in new:
